@@ -47,15 +47,21 @@ Fixpoint deriv (c : ascii) (r : rx) : rx :=
   end.
 
 (* light normalisation to keep derivatives small; language-preserving *)
+Definition mk_seq (a b : rx) : rx :=
+  match a, b with
+  | RNone, _ => RNone | _, RNone => RNone
+  | REps, b' => b' | a', REps => a'
+  | a', b' => RSeq a' b'
+  end.
+Definition mk_alt (a b : rx) : rx :=
+  match a, b with
+  | RNone, b' => b' | a', RNone => a'
+  | a', b' => RAlt a' b'
+  end.
 Fixpoint simp (r : rx) : rx :=
   match r with
-  | RSeq a b => match simp a, simp b with
-                | RNone, _ => RNone | _, RNone => RNone
-                | REps, b' => b' | a', REps => a'
-                | a', b' => RSeq a' b' end
-  | RAlt a b => match simp a, simp b with
-                | RNone, b' => b' | a', RNone => a'
-                | a', b' => RAlt a' b' end
+  | RSeq a b => mk_seq (simp a) (simp b)
+  | RAlt a b => mk_alt (simp a) (simp b)
   | RStar a => RStar (simp a)
   | _ => r
   end.
